@@ -65,6 +65,8 @@ type Op struct {
 	HasLog   bool   `json:"has_log,omitempty"`
 	LogRef   string `json:"log_ref,omitempty"`
 	LogDest  string `json:"log_dest,omitempty"`
+	PrEnable bool   `json:"pr_enable,omitempty"`  // spec.enable
+	LogEn    bool   `json:"log_enable,omitempty"` // spec.dosSecurityLog.enable
 	// oracle: verdict of the real validator on the object built from this op (filled by run)
 	Valid bool `json:"valid"`
 }
@@ -204,7 +206,7 @@ func buildProtected(op *Op) *v1beta1.DosProtectedResource {
 	p := &v1beta1.DosProtectedResource{
 		ObjectMeta: metav1.ObjectMeta{Name: op.Name, Namespace: op.Ns},
 		Spec: v1beta1.DosProtectedResourceSpec{
-			Enable:           true,
+			Enable:           op.PrEnable,
 			Name:             op.SpecName,
 			ApDosMonitor:     &v1beta1.ApDosMonitor{URI: "example.com"},
 			DosAccessLogDest: "127.0.0.1:5561",
@@ -212,7 +214,7 @@ func buildProtected(op *Op) *v1beta1.DosProtectedResource {
 		},
 	}
 	if op.HasLog {
-		p.Spec.DosSecurityLog = &v1beta1.DosSecurityLog{Enable: true, ApDosLogConf: op.LogRef, DosLogDest: op.LogDest}
+		p.Spec.DosSecurityLog = &v1beta1.DosSecurityLog{Enable: op.LogEn, ApDosLogConf: op.LogRef, DosLogDest: op.LogDest}
 	}
 	return p
 }
@@ -705,6 +707,9 @@ func genHistory(r *vh.Rng, id int, malformed bool, family int) Case {
 		case 4:
 			op.HasTag = r.Chance(1, 4)
 		case 5:
+			// the two enable switches: valid either way, and usability must not depend on them
+			op.PrEnable = !r.Chance(1, 4)
+			op.LogEn = r.Bool()
 			op.SpecName = "dos-" + op.Name
 			if !op.WF {
 				switch r.Intn(3) {
@@ -795,9 +800,20 @@ func corpus() []Case {
 	sig := Op{K: 2, Ns: "n1", Name: "a", UID: "aa-1", TS: tpool[0], WF: true, HasTag: true, Tag: "t1", Rev: TF{K: 2, T: tpool[1]}}
 	pol := Op{K: 0, Ns: "n1", Name: "a", UID: "ab-2", TS: tpool[0], WF: true, ReqsKind: 2, Reqs: []Req{{HasTag: true, Tag: "t1"}}}
 	delAbsent := Op{K: 2, Ns: "n2", Name: "c", Del: true}
+	// a protected resource whose security log is switched off but names log conf n1/b and policy a,
+	// stored BEFORE they arrive, turn invalid and are deleted: every flip must be reported
+	prOff := Op{K: 5, Ns: "n1", Name: "a", WF: true, SpecName: "dos-a", PolRef: "a", HasLog: true, LogRef: "n1/b", LogDest: "stderr", PrEnable: true, LogEn: false}
+	dpol := Op{K: 3, Ns: "n1", Name: "a", UID: "ca-3", TS: tpool[0], WF: true}
+	dlog := Op{K: 4, Ns: "n1", Name: "b", UID: "cb-4", TS: tpool[0], WF: true}
+	dlogBad := Op{K: 4, Ns: "n1", Name: "b", UID: "cb-4", TS: tpool[0], WF: false}
+	delLog := Op{K: 4, Ns: "n1", Name: "b", Del: true}
+	delPol := Op{K: 3, Ns: "n1", Name: "a", Del: true}
+	c2 := mk(2, "corpus-dos-disabled-log", []Op{prOff, dpol, dlog, dlogBad, dlog, delLog, dlog, delPol})
+	c2.Perms = [][]int{{1, 0, 2, 3, 4, 5, 6, 7}, {1, 2, 0, 3, 4, 5, 6, 7}}
 	return []Case{
 		mk(0, "corpus-revtime", []Op{sig, pol}),
 		mk(1, "corpus-delete-absent", []Op{sig, delAbsent}),
+		c2,
 	}
 }
 
